@@ -98,6 +98,19 @@ def run_paths(stmts, env=None, max_paths=256, decide=None):
                         else:
                             for k, e in enumerate(t.elts):
                                 env[e.id] = ast.Subscript(value=val, slice=ast.Constant(k), ctx=ast.Load())
+                    elif isinstance(t, ast.Subscript) and isinstance(t.value, ast.Name) and \
+                            isinstance(env.get(t.value.id), ast.Dict) and isinstance(t.slice, ast.Constant):
+                        # d["k"] = v on a dict literal held in a local: fold into the literal
+                        d = env[t.value.id]
+                        keys, vals = list(d.keys), list(d.values)
+                        hit = [i_ for i_, k in enumerate(keys) if isinstance(k, ast.Constant) and k.value == t.slice.value]
+                        if hit:
+                            vals[hit[0]] = val
+                        else:
+                            keys.append(ast.Constant(t.slice.value))
+                            vals.append(val)
+                        env = dict(env)
+                        env[t.value.id] = ast.Dict(keys=keys, values=vals)
                     else:
                         effects = effects + [ast.Assign(targets=[subst(t, env)], value=val, lineno=s.lineno)]
                 continue
@@ -111,6 +124,24 @@ def run_paths(stmts, env=None, max_paths=256, decide=None):
                                                        lineno=s.lineno)]
                 continue
             if isinstance(s, ast.Expr):
+                v = s.value
+                if isinstance(v, ast.Call) and isinstance(v.func, ast.Attribute) and v.func.attr == "update" and \
+                        isinstance(v.func.value, ast.Name) and isinstance(env.get(v.func.value.id), ast.Dict) and \
+                        len(v.args) == 1 and isinstance(v.args[0], ast.Dict):
+                    d = env[v.func.value.id]
+                    keys, vals = list(d.keys), list(d.values)
+                    for k, x in zip(v.args[0].keys, v.args[0].values):
+                        x = subst(x, env)
+                        hit = [i_ for i_, kk in enumerate(keys) if isinstance(kk, ast.Constant) and isinstance(k, ast.Constant)
+                               and kk.value == k.value]
+                        if hit:
+                            vals[hit[0]] = x
+                        else:
+                            keys.append(k)
+                            vals.append(x)
+                    env = dict(env)
+                    env[v.func.value.id] = ast.Dict(keys=keys, values=vals)
+                    continue
                 effects = effects + [subst(s.value, env)]
                 continue
             if isinstance(s, ast.Return):
@@ -150,7 +181,7 @@ def run_paths(stmts, env=None, max_paths=256, decide=None):
             if isinstance(s, (ast.For, ast.AsyncFor, ast.While)):
                 env = dict(env)
                 for n in assigned_names([s]):
-                    env[n] = ast.Name(id=f"{n}@loop{s.lineno}", ctx=ast.Load())
+                    env[n] = ast.Name(id=f"{n}__loop{s.lineno}", ctx=ast.Load())
                 effects = effects + [s]
                 continue
             if isinstance(s, ast.Try):
